@@ -1316,7 +1316,7 @@ def base_quantiles(c, shape, i):
 # digamma equations, from_mode, expected sufficient statistics
 
 
-GB_OPS = {"logpdfx", "meanx", "expstats", "canon", "logpartition", "invpsilog", "invbeta", "frommode"}
+GB_OPS = {"logpdfx", "meanx", "residual", "expstats", "canon", "logpartition", "invpsilog", "invbeta", "frommode"}
 PSILOG_START = (0.38648347, 0.89486989, 0.78578843)
 
 
@@ -1330,6 +1330,8 @@ def ref_invpsilog(rec, c):
             return x, False
         f0 = rec.digamma(x) - math.log(x) - c
         x = x - f0 / (rec.trigamma(x) - 1 / x)
+    if x > 0 and math.isfinite(x):
+        rec.digamma(x)  # (the residual is evaluated at the result)
     return x, bool(x > 0 and math.isfinite(x))
 
 
@@ -1348,6 +1350,8 @@ def ref_inv_beta(rec, l1, l2):
         j11, j12, j22 = rec.trigamma(a) - t, -t, rec.trigamma(b) - t
         det = j11 * j22 - j12 * j12
         a, b = a + (-f1 * j22 + j12 * f2) / det, b + (-j11 * f2 + j12 * f1) / det
+    if a > 0 and b > 0 and math.isfinite(a) and math.isfinite(b):
+        rec.digamma(a), rec.digamma(b), rec.digamma(a + b)
     return (a, b), bool(a > 0 and b > 0 and math.isfinite(a) and math.isfinite(b))
 
 
@@ -1390,6 +1394,16 @@ def exec_stmt_gb(st, regs):
     if op == "invbeta":
         a, b = mbeta.inv_beta_suffstats(np.asarray(st["x"], dtype=float), np.asarray(st["y"], dtype=float))
         return [("pair", np.array([np.asarray(a, dtype=float), np.asarray(b, dtype=float)]))]
+    if op == "residual":
+        # the residual of the equations at the REAL result, with the library's own psilog / grad_betaln
+        m1, m2 = np.asarray(st["m1"], dtype=float), np.asarray(st["m2"], dtype=float)
+        r = FAMS[st["fam"]].from_sufficient_statistics(np.array([m1, m2]))
+        if st["fam"] == "gamma":
+            res = mutils.psilog(np.asarray(r.alpha, dtype=float)) - (m1 - np.log(m2))
+            return [("pair", np.array([res, np.zeros_like(res)]))]
+        ab = np.c_[np.ravel(r.alpha), np.ravel(r.beta)]
+        f = mbeta.grad_betaln(ab) - np.c_[np.ravel(m1), np.ravel(m2)]
+        return [("pair", np.array([f[:, 0].reshape(np.shape(m1)), f[:, 1].reshape(np.shape(m1))]))]
     if op == "frommode":
         cls = FAMS[st["fam"]]
         return [cls.from_mode(as_param(st["m"]), st["v"], log_norm=st["ln"], id_=st["id"], lower_limit=st["lo"],
@@ -1415,6 +1429,8 @@ def model_stmt_gb(st, regs, shape, i):
         return {"op": op, "x": hx(st["x"], shape, i)}
     if op == "invbeta":
         return {"op": op, "x": hx(st["x"], shape, i), "y": hx(st["y"], shape, i)}
+    if op == "residual":
+        return {"op": op, "fam": st["fam"], "m1": hx(st["m1"], shape, i), "m2": hx(st["m2"], shape, i)}
     if op == "frommode":
         return {"op": op, "fam": st["fam"], "m": hx(st["m"], shape, i), "v": f2h(st["v"]), "ln": f2h(st["ln"]),
                 "id": st["id"], "lo": f2h(st["lo"]), "hi": f2h(st["hi"])}
@@ -1433,6 +1449,8 @@ def fill_tables_gb(rec, prog, regs, first, shape, i):
                 ref_invpsilog(rec, elem(st["x"], shape, i))
             elif op == "invbeta":
                 ref_inv_beta(rec, elem(st["x"], shape, i), elem(st["y"], shape, i))
+            elif op == "residual":
+                gb_inversion_smooth(rec, st["fam"], {"op": "fromsuff", "m1": st["m1"], "m2": st["m2"]}, shape, i)
             elif op in ("fromsuff", "project", "mproject"):
                 fam = st.get("fam") or fam_of(regs[st["a"]])
                 if fam in ("gamma", "beta"):
@@ -1468,6 +1486,13 @@ def cmp_gb(ctx, case, st, r, mo, r_i, shape, i, scale):
         if not smooth:
             ctx.hit("model-skip:newton-left-positive-axis")
             return
+    if op == "residual":
+        if not gb_inversion_smooth(Rec(), st["fam"], {"op": "fromsuff", "m1": st["m1"], "m2": st["m2"]}, shape, i):
+            ctx.hit("model-skip:newton-left-positive-axis")
+            return
+        rel, sc0 = 1e-6, 1e-3  # both residuals are rounding noise when converged: compared at 1e-9 absolute
+        small = max(abs(h2f(mo["a"])), abs(h2f(mo["b"]))) <= 1e-9
+        ctx.hit("converged:" + ("yes" if small else "no"))
     if kind == "num":
         got, want = elem(val, shape, i), h2f(mo["v"])
         ok = close(got, want, rel=rel, scale=sc0)
@@ -1568,6 +1593,8 @@ def gb_pinned():
          {"op": "logpdfx", "a": 0, "x": [1.5, -0.5]}, {"op": "canon", "a": 0, "x": [0.25, 0.75]}, {"op": "expstats", "a": 0}],
         [{"op": "invpsilog", "x": [-1e-4, -0.5, -30.0]}],
         [{"op": "invbeta", "x": [-0.7, -2.0], "y": [-0.7, -0.2]}],
+        [{"op": "residual", "fam": "gamma", "m1": [-0.2, 1.0], "m2": [1.0, 3.0]}],
+        [{"op": "residual", "fam": "beta", "m1": [-0.7, -2.0], "m2": [-0.7, -0.2]}],
         [{"op": "frommode", "fam": "gamma", "m": 2.0, "v": 0.25, "ln": 0.5, "id": fresh_id(), "lo": -INF, "hi": INF},
          {"op": "mean", "a": 0}, {"op": "variance", "a": 0}, {"op": "natural", "a": 0}],
         [{"op": "frommode", "fam": "normal", "m": [1.0, -2.0], "v": -0.25, "ln": 0.0, "id": fresh_id(), "lo": -3.0, "hi": 7.0},
@@ -1651,6 +1678,7 @@ def gen_gb(rng):
         prog.append({"op": "fromsuff", "fam": fam, "m1": jf(s_[0]), "m2": jf(s_[1]), "ln": rfloat(rng, -2, 2), "id": fresh_id()})
         prog.append({"op": "natural", "a": 0})
         prog.append({"op": "expstats", "a": 0})
+        prog.append({"op": "residual", "fam": fam, "m1": jf(s_[0]), "m2": jf(s_[1])})
     else:
         fam = rng.choice(["gamma", "gamma", "normal", "naturalNormal"])
         lims = rng.random() < 0.5
